@@ -25,6 +25,8 @@ type VP8LProg struct {
 	CachePct   int    // percentage of cache hits
 	LitSpread  int    // number of distinct values per literal channel (1..256)
 	LongDist   bool   // use linear (non plane-code) distances too
+	CodeShape  string // "" or balanced | random | deep (codes padded so that 13..15-bit codewords are in use)
+	LongCopies bool   // a third of the backward references copy up to 4096 pixels (9/10 extra length bits)
 	Seed       uint64
 }
 
@@ -40,7 +42,7 @@ func (p *VP8LProg) Summary() map[string]any {
 	for _, t := range p.Transforms {
 		tr = append(tr, t.Type)
 	}
-	return map[string]any{"w": p.W, "h": p.H, "transforms": tr, "cache": p.CacheBits, "meta": p.MetaBits, "groups": p.Groups, "style": p.CodeStyle, "ref%": p.RefPct, "cache%": p.CachePct, "lit": p.LitSpread}
+	return map[string]any{"w": p.W, "h": p.H, "transforms": tr, "cache": p.CacheBits, "meta": p.MetaBits, "groups": p.Groups, "style": p.CodeStyle, "ref%": p.RefPct, "cache%": p.CachePct, "lit": p.LitSpread, "shape": p.CodeShape, "longcopies": p.LongCopies}
 }
 
 func DrawVP8L(t *rapid.T, maxSide int) *VP8LProg {
@@ -71,7 +73,7 @@ func DrawVP8L(t *rapid.T, maxSide int) *VP8LProg {
 	}
 	if rapid.IntRange(0, 2).Draw(t, "useMeta") == 0 {
 		p.MetaBits = rapid.IntRange(2, 9).Draw(t, "metaBits")
-		p.Groups = rapid.SampledFrom([]int{1, 2, 3, 7, 30}).Draw(t, "groups")
+		p.Groups = rapid.SampledFrom([]int{1, 2, 2, 3, 3, 7, 7, 30, 30, 300, 1100}).Draw(t, "groups")
 		p.UnusedGrp = rapid.Bool().Draw(t, "unusedGroup")
 	}
 	p.CodeStyle = rapid.SampledFrom([]string{"mixed", "mixed", "simple", "normal", "rle", "maxsym"}).Draw(t, "codeStyle")
@@ -81,6 +83,8 @@ func DrawVP8L(t *rapid.T, maxSide int) *VP8LProg {
 	}
 	p.LitSpread = rapid.SampledFrom([]int{1, 2, 3, 16, 256}).Draw(t, "litSpread")
 	p.LongDist = rapid.Bool().Draw(t, "longDist")
+	p.CodeShape = rapid.SampledFrom([]string{"balanced", "balanced", "random", "deep", "deep"}).Draw(t, "codeShape")
+	p.LongCopies = rapid.IntRange(0, 3).Draw(t, "longCopies") == 0
 	p.Seed = rapid.Uint64().Draw(t, "seed")
 	return p
 }
@@ -167,6 +171,13 @@ func (w *bitW) sym(c *pcode, s int) {
 // completeLens returns code lengths over `alphabet` symbols, non-zero exactly for `used`, forming
 // a complete prefix code (Kraft sum 1) with lengths <= maxLen. One used symbol gets length 1.
 func completeLens(r *Rng, alphabet int, used []int, maxLen int) []int {
+	return completeLensShape(r, alphabet, used, maxLen, "", nil)
+}
+
+// completeLensShape: shape "deep" always splits the deepest splittable leaf (a spine with a full
+// subtree at the bottom: as many maxLen-bit codewords as the symbol count allows) and gives the
+// longest codewords to the symbols in `prefer` first; "random" splits a random leaf.
+func completeLensShape(r *Rng, alphabet int, used []int, maxLen int, shape string, prefer map[int]bool) []int {
 	lens := make([]int, alphabet)
 	k := len(used)
 	if k == 0 {
@@ -187,7 +198,15 @@ func completeLens(r *Rng, alphabet int, used []int, maxLen int) []int {
 			}
 		}
 		i := cand[r.Intn(len(cand))]
-		if r.Intn(3) > 0 { // prefer balanced: split a shallowest candidate
+		if shape == "deep" {
+			best := cand[0]
+			for _, j := range cand {
+				if depths[j] > depths[best] {
+					best = j
+				}
+			}
+			i = best
+		} else if shape != "random" && r.Intn(3) > 0 { // prefer balanced: split a shallowest candidate
 			best := cand[0]
 			for _, j := range cand {
 				if depths[j] < depths[best] {
@@ -207,6 +226,29 @@ func completeLens(r *Rng, alphabet int, used []int, maxLen int) []int {
 	for i := k - 1; i > 0; i-- {
 		j := r.Intn(i + 1)
 		perm[i], perm[j] = perm[j], perm[i]
+	}
+	if shape == "deep" && len(prefer) > 0 && r.Intn(3) > 0 {
+		// longest codewords go to the preferred (actually occurring) symbols
+		sort.Sort(sort.Reverse(sort.IntSlice(depths)))
+		order := make([]int, 0, k)
+		for _, s := range used {
+			if prefer[s] {
+				order = append(order, s)
+			}
+		}
+		for i := len(order) - 1; i > 0; i-- {
+			j := r.Intn(i + 1)
+			order[i], order[j] = order[j], order[i]
+		}
+		for _, s := range used {
+			if !prefer[s] {
+				order = append(order, s)
+			}
+		}
+		for i, s := range order {
+			lens[s] = depths[i]
+		}
+		return lens
 	}
 	for i, s := range used {
 		lens[s] = depths[perm[i]]
@@ -488,6 +530,9 @@ func (g *vp8lW) writeImageStream(xsize, ysize int, level0, pureLiterals bool, li
 			if r.Intn(30) == 0 {
 				l = maxLen
 			}
+			if p.LongCopies && r.Intn(3) == 0 {
+				l = 1 + r.Intn(maxLen)
+			}
 			var dcode int
 			if !p.LongDist || r.Intn(2) == 0 {
 				// plane code: pick one whose mapped distance is valid here
@@ -565,19 +610,38 @@ func (g *vp8lW) writeImageStream(xsize, ysize int, level0, pureLiterals bool, li
 			}
 		}
 		if len(k) == 0 {
-			k = append(k, r.Intn(minI(alphabet, 256)))
+			s := r.Intn(minI(alphabet, 256))
+			m[s] = true
+			k = append(k, s)
 		}
 		sort.Ints(k)
 		return k
 	}
 	mk := func(m map[int]bool, alphabet int) *pcode {
+		occurring := map[int]bool{}
+		for s := range m {
+			occurring[s] = true
+		}
 		k := keys(m, alphabet)
 		var lens []int
-		if len(k) == 2 && (p.CodeStyle == "simple" || r.Intn(2) == 0) {
+		if p.CodeShape == "deep" && r.Intn(4) > 0 {
+			// pad the code with symbols that never occur until 15-bit codewords are possible
+			want := minI(alphabet, 17+r.Intn(12))
+			for len(k) < want {
+				s := r.Intn(alphabet)
+				if !m[s] {
+					m[s] = true
+					k = append(k, s)
+				}
+			}
+			sort.Ints(k)
+			lens = completeLensShape(r, alphabet, k, 15, "deep", occurring)
+			g.stat["deepcode"]++
+		} else if len(k) == 2 && (p.CodeStyle == "simple" || r.Intn(2) == 0) {
 			lens = make([]int, alphabet)
 			lens[k[0]], lens[k[1]] = 1, 1
 		} else {
-			lens = completeLens(r, alphabet, k, 15)
+			lens = completeLensShape(r, alphabet, k, 15, p.CodeShape, nil)
 		}
 		g.writeCode(lens, p.CodeStyle)
 		return buildCode(lens)
